@@ -166,6 +166,15 @@ def _required_cfi_directives(
     if not displacement_map:
         return []
 
+    if not block.size:
+        # An empty block has no instructions for its directives to describe:
+        # all of them are about the code that follows.
+        return [
+            directive
+            for _, directives in sorted(displacement_map.items())
+            for directive in directives
+        ]
+
     # We need to keep start/end proc directives and remember/restore state
     # directives, but we also want to drop anything between a balanced
     # start/end proc pair (including the start/end proc directives).
